@@ -310,7 +310,7 @@ def main():
         cfg = dict(cfg, modules=list(cfg['modules']))
         with Lock('lake'):
             r = subprocess.run([sys.executable, os.path.join(VERIF, 'tools', 'rs2lean.py')], stdout=subprocess.PIPE, stderr=subprocess.STDOUT, timeout=120)
-        t2 = r.stdout.decode(errors='replace').strip()[:800]
+        t2 = r.stdout.decode(errors='replace').strip()[:6000]
         translation = (translation + '\n' if translation else '') + t2
         done = {l.split(':')[0] for l in t2.split('\n') if re.match(r'^\w+: (written|unchanged)$', l)}
         for gen_file, module in cfg['srcgen'].items():
